@@ -5,9 +5,12 @@ import sys
 import time
 import traceback
 
+import paths
+
 VERIF = "/verif"
-EVIDENCE_DIR = os.path.join(VERIF, "evidence")
-REPLAY_DIR = os.path.join(VERIF, "replays")
+# a run against a changed copy (VERIF_REPO) leaves the evidence of the real tree alone
+EVIDENCE_DIR = os.path.join(VERIF, "evidence") if not paths.ALT else os.path.join(VERIF, "work", "alt_evidence")
+REPLAY_DIR = os.path.join(VERIF, "replays") if not paths.ALT else os.path.join(VERIF, "work", "alt_replays")
 KNOWN_FILE = os.path.join(VERIF, "known_findings.json")
 
 
